@@ -7,6 +7,7 @@ use crate::verif_util::*;
 use crate::Masscanned;
 use pnet::util::MacAddr;
 use std::convert::TryFrom;
+use crate::proto::dns::cst::{DNSClass, DNSType};
 use std::net::{IpAddr, Ipv4Addr, Ipv6Addr};
 
 fn dns_ci(dst: Ipv4Addr) -> ClientInfo {
@@ -337,7 +338,8 @@ fn c14_dns_question() {
 
 //# harness: c14_dns_assembly_1
 //# props: C14 C12 C01
-//# tier: quick
+//# tier: thorough
+//# timeout: 1400
 //# encodes: proto::dns::DNSPacket::repl (assembly of header, echoed questions and answers), DNSHeader::repl, DNSQuery::repl, DNSRR
 //# bounds: header from 12 symbolic bytes (QDCOUNT = 1); 1 question(s) with one-byte names built directly in their parsed state, each IN/A or IN/TXT (symbolic choice); destination address symbolic
 //# known: c12.dns_response_answered
@@ -352,7 +354,8 @@ fn c14_dns_assembly_1() {
 
 //# harness: c14_dns_assembly_2
 //# props: C14 C12 C01
-//# tier: quick
+//# tier: thorough
+//# timeout: 1400
 //# encodes: proto::dns::DNSPacket::repl (assembly of header, echoed questions and answers), DNSHeader::repl, DNSQuery::repl, DNSRR
 //# bounds: header from 12 symbolic bytes (QDCOUNT = 2); 2 question(s) with one-byte names built directly in their parsed state, each IN/A or IN/TXT (symbolic choice); destination address symbolic
 //# known: c12.dns_response_answered
@@ -367,7 +370,7 @@ fn c14_dns_assembly_2() {
 
 //# harness: c14_dns_assembly_0
 //# props: C14 C12 C01
-//# tier: thorough
+//# tier: quick
 //# encodes: proto::dns::DNSPacket::repl (assembly of header, echoed questions and answers), DNSHeader::repl, DNSQuery::repl, DNSRR
 //# bounds: header from 12 symbolic bytes (QDCOUNT = 0); 0 question(s) with one-byte names built directly in their parsed state, each IN/A or IN/TXT (symbolic choice); destination address symbolic
 //# known: c12.dns_response_answered
